@@ -78,6 +78,9 @@ func (o c17Op) String() string {
 	if o.Op == "open" {
 		return fmt.Sprintf("Open(f%d%s)", o.DSN/2, map[int]string{0: "", 1: "+opts"}[o.DSN%2])
 	}
+	if o.Op == "swap" {
+		return "replace-file(f0)"
+	}
 	return fmt.Sprintf("%s(h%d)", o.Op, o.H)
 }
 
@@ -135,6 +138,7 @@ func c17Play(ctx *rt.Ctx, c c17Case, all bool) (viol string, sigOverride string,
 	// must be released under the same one)
 	files[1] = ctx.Scratch + "/./" + filepath.Base(files[1])
 	handles := map[int]*c17Handle{}
+	content := [2]int{0, 1} // which master's bytes each path currently holds ("swap" replaces file 0 while it is closed)
 	flk.Sequential(true)
 	defer flk.Sequential(false) // registered first = runs last: the cleanup below must still detect blocking calls
 	defer func() {
@@ -181,6 +185,13 @@ func c17Play(ctx *rt.Ctx, c c17Case, all bool) (viol string, sigOverride string,
 			}
 		}()
 		switch o.Op {
+		case "swap":
+			// nobody has the file open: another index is put at the same path (what a nightly rebuild does); handles
+			// opened afterwards must answer from the new file, whatever the driver remembers about the old one
+			if err := os.WriteFile(files[0], c17Masters[1], 0o644); err != nil {
+				rt.Harnessf("swap: %v", err)
+			}
+			content[0] = 1
 		case "open":
 			db, err := sql.Open("updog", "file:"+files[o.DSN/2]+c17Opts[o.DSN%2])
 			if err != nil {
@@ -215,7 +226,7 @@ func c17Play(ctx *rt.Ctx, c c17Case, all bool) (viol string, sigOverride string,
 		case "query", "prep", "query2":
 			h := handles[o.H]
 			conflict := func() bool { lo := liveOpts(h.dsn/2, o.H); return lo[1-h.dsn%2] && !lo[h.dsn%2] }()
-			want := c17Expected(h.dsn / 2)
+			want := c17Expected(content[h.dsn/2])
 			run := func() (string, error) {
 				// a value that occurs nowhere: must give no rows (and must not leave anything behind that blocks Close)
 				if rows, err := h.db.Query(`a = "no such value" ; c`); err != nil {
@@ -308,7 +319,7 @@ func c17Play(ctx *rt.Ctx, c c17Case, all bool) (viol string, sigOverride string,
 	if dump == "?" {
 		return "", "", ""
 	}
-	return "", "", strings.Join(hs, ",") + "|" + dump
+	return "", "", fmt.Sprintf("%s|content%v|%s", strings.Join(hs, ","), content, dump)
 }
 
 // c17DriverDump renders the complete private state of the registered driver (every field, also ones added later), with
@@ -342,6 +353,15 @@ func c17Enabled(c c17Case, o c17Op) bool {
 		}
 	}
 	switch o.Op {
+	case "swap":
+		// once per history, whenever no handle is open (also initially: enabledness must be a function of the state,
+		// and a state in which everything is closed again may have been merged with the initial one)
+		for _, p := range c.Ops {
+			if p.Op == "swap" {
+				return false
+			}
+		}
+		return len(live) == 0
 	case "open":
 		return !live[o.H] && len(live) < 3 && (o.H == 0 || live[o.H-1] || liveCountBelow(live, o.H))
 	case "query2":
@@ -381,7 +401,7 @@ func c17Alphabet() []c17Op {
 			ops = append(ops, c17Op{Op: k, H: h})
 		}
 	}
-	return ops
+	return append(ops, c17Op{Op: "swap"})
 }
 
 type c17Args struct {
@@ -410,6 +430,7 @@ func c17Unmerged(ctx *rt.Ctx, pool int) []*rt.Violation {
 		}
 		alpha = append(alpha, c17Op{Op: "query", H: h}, c17Op{Op: "close", H: h})
 	}
+	alpha = append(alpha, c17Op{Op: "swap"}) // histories that replace the closed file may be one step longer
 	var vs []*rt.Violation
 	conflictSeen := false
 	var rec func(c c17Case) bool
@@ -430,7 +451,11 @@ func c17Unmerged(ctx *rt.Ctx, pool int) []*rt.Violation {
 				return false
 			}
 		}
-		if len(c.Ops) == 5 {
+		hasSwap := false
+		for _, o := range c.Ops {
+			hasSwap = hasSwap || o.Op == "swap"
+		}
+		if len(c.Ops) == 6 || (len(c.Ops) == 5 && !hasSwap) {
 			return true
 		}
 		for _, op := range alpha {
@@ -460,6 +485,10 @@ func c17LevelWorker(ctx *rt.Ctx, a c17Args) []*rt.Violation {
 				continue
 			}
 			c := c17Case{Pool: a.Pool, Ops: append(append([]c17Op{}, h...), op)}
+			if ctx.Expired() {
+				ctx.Cov.Cap(fmt.Sprintf("pool=%d: deadline at depth %d", a.Pool, len(h)+1))
+				return vs
+			}
 			viol, sig, key := c17Play(ctx, c, false)
 			ctx.Cov.Add("transitions", 1)
 			ctx.Cov.Add("traces_validated_against_impl", 1)
@@ -576,9 +605,10 @@ func c17SeqWorker(ctx *rt.Ctx, job *rt.Job, a c17Args) []*rt.Violation {
 
 type c17Params struct {
 	Threads int  `json:"threads"`
-	Mixed   bool `json:"mixed"` // one thread re-opens after closing (open/close/open)
-	Args    bool `json:"args"`  // every thread binds a different argument (direct and prepared path)
-	LRU     bool `json:"lru"`   // the DSN asks for an LRU cache, which all connections of the file then share
+	Mixed   bool `json:"mixed"`             // one thread re-opens after closing (open/close/open)
+	Args    bool `json:"args"`              // every thread binds a different argument (direct and prepared path)
+	LRU     bool `json:"lru"`               // the DSN asks for an LRU cache, which all connections of the file then share
+	Preload bool `json:"preload,omitempty"` // the DSN asks for preloaded data
 }
 
 func c17Driver() driver.Driver {
@@ -611,6 +641,8 @@ func c17ConcScenario(ctx *rt.Ctx, p c17Params, outcome *string) vsched.Scenario 
 		dsn := "file:" + file
 		if p.LRU {
 			dsn += "?lrucache=true&lrucachesize=1000000"
+		} else if p.Preload {
+			dsn += "?preload=true"
 		}
 		got := make([]string, p.Threads)
 		use := func(t int) string {
@@ -714,9 +746,9 @@ func c17Run(ctx *rt.Ctx) []*rt.Violation {
 		bound  int
 		shards int // level-1 subtrees of the schedule tree are dealt to this many worker processes
 	}
-	concs := []cc{{c17Params{Threads: 2}, 2, 2}, {c17Params{Threads: 2, Mixed: true}, 2, 5}, {c17Params{Threads: 3}, 1, 1}, {c17Params{Threads: 2, Args: true}, 2, 2}, {c17Params{Threads: 3, Args: true}, 1, 1}, {c17Params{Threads: 2, LRU: true}, 2, 2}, {c17Params{Threads: 2, Args: true, LRU: true}, 1, 1}}
+	concs := []cc{{c17Params{Threads: 2}, 2, 2}, {c17Params{Threads: 2, Mixed: true}, 2, 5}, {c17Params{Threads: 3}, 1, 1}, {c17Params{Threads: 2, Args: true}, 2, 2}, {c17Params{Threads: 3, Args: true}, 1, 1}, {c17Params{Threads: 2, LRU: true}, 2, 2}, {c17Params{Threads: 2, Args: true, LRU: true}, 1, 1}, {c17Params{Threads: 2, Preload: true}, 1, 1}, {c17Params{Threads: 3, Args: true, Preload: true}, 1, 1}}
 	if ctx.Thorough() {
-		concs = []cc{{c17Params{Threads: 2}, 4, 6}, {c17Params{Threads: 2, Mixed: true}, 3, 8}, {c17Params{Threads: 3}, 2, 6}, {c17Params{Threads: 3, Mixed: true}, 2, 8}, {c17Params{Threads: 2, Args: true}, 3, 4}, {c17Params{Threads: 3, Args: true}, 2, 6}, {c17Params{Threads: 2, LRU: true}, 3, 4}, {c17Params{Threads: 3, Args: true, LRU: true}, 1, 2}}
+		concs = []cc{{c17Params{Threads: 2}, 4, 6}, {c17Params{Threads: 2, Mixed: true}, 3, 8}, {c17Params{Threads: 3}, 2, 6}, {c17Params{Threads: 3, Mixed: true}, 2, 8}, {c17Params{Threads: 2, Args: true}, 3, 4}, {c17Params{Threads: 3, Args: true}, 2, 6}, {c17Params{Threads: 2, LRU: true}, 3, 4}, {c17Params{Threads: 3, Args: true, LRU: true}, 1, 2}, {c17Params{Threads: 2, Preload: true}, 3, 4}, {c17Params{Threads: 3, Args: true, Preload: true}, 2, 6}}
 	}
 	var conc []rt.Job
 	for _, c := range concs {
@@ -755,7 +787,7 @@ func c17Run(ctx *rt.Ctx) []*rt.Violation {
 	ctx.Cov.Note("sequential", fmt.Sprintf("BFS over histories of {Open(dsn) for 2 files x 2 option strings, Query, Prepare+Stmt.Query, two overlapping Queries, Close} through database/sql with the registered driver, <=3 live handles, pool size in {unlimited,1}, depth %d, states merged on (handle pool stats, generic dump of all driver fields), each level expanded by parallel worker processes; file 1 is addressed through a non-canonical path spelling; plus every history to depth 5 over the reduced alphabet {3 DSNs, query, close, <=2 handles} WITHOUT state merging (state kept outside the driver object cannot hide there)", depth))
 	var cdesc []string
 	for _, c := range concs {
-		cdesc = append(cdesc, fmt.Sprintf("%d threads%s%s%s: <=%d preemptions, %d shard(s)", c.p.Threads, map[bool]string{true: " +reopen"}[c.p.Mixed], map[bool]string{true: " +different arguments"}[c.p.Args], map[bool]string{true: " +LRU option"}[c.p.LRU], c.bound, c.shards))
+		cdesc = append(cdesc, fmt.Sprintf("%d threads%s%s%s: <=%d preemptions, %d shard(s)", c.p.Threads, map[bool]string{true: " +reopen"}[c.p.Mixed], map[bool]string{true: " +different arguments"}[c.p.Args], map[bool]string{true: " +LRU option"}[c.p.LRU]+map[bool]string{true: " +preload option"}[c.p.Preload], c.bound, c.shards))
 	}
 	ctx.Cov.Note("concurrent", fmt.Sprintf("%v: threads each doing driver.Open -> QueryContext -> Close on one file (what database/sql does on concurrent first use of a fresh handle), preemption-bounded DFS, file-lock waits are scheduling points, race detector live", cdesc))
 	ctx.Cov.Note("rule", "sequential: every transition replayed on fresh file copies, checks rows, no panic, no lock wait (a wait in a single-threaded history is a hang), file released after last Close; concurrent: no deadlock/panic/race, rows correct, file free at the end")
